@@ -1395,7 +1395,7 @@ static int _parse_single_range(const char *str, struct _range *range)
     if (range->lo > range->hi)
         goto error;
 
-    if (range->hi - range->lo + 1 > MAX_RANGE ) {
+    if (range->hi - range->lo >= MAX_RANGE ) {   /* N.B. hi - lo + 1 can wrap to 0 */
         free(orig);
         seterrno_ret(ERANGE, 0);
     }
